@@ -571,7 +571,7 @@ impl Property for C38 {
         "the stream is an in-memory reader/writer: Unix stream socket transport (short reads) is modelled by the chunking reader, not by a kernel socket",
         "the handler observer::handle_connection is private to observer.rs; the check calls sockets::write_json on an ObservableState exactly as that handler does",
     ];
-    const QUICK_CASES: u32 = 24_000;
+    const QUICK_CASES: u32 = 100_000;
     const THOROUGH_CASES: u32 = 1_200_000;
 
     fn strategy(_tier: Tier) -> BoxedStrategy<Case> {
